@@ -443,7 +443,16 @@ int MML_Input::get_track_id()
 	else if(std::isdigit(c))
 		return c - '0' + 26;
 	else if(c == '*')
-		return get_num();
+	{
+		try
+		{
+			return get_num();
+		}
+		catch(std::invalid_argument&)
+		{
+			parse_error("expected track number");
+		}
+	}
 	// No match
 	unget(c);
 	return -1;
